@@ -1,6 +1,7 @@
 package enga
 
 import (
+	"encoding/json"
 	"errors"
 	"fmt"
 	tpretty "github.com/tidwall/pretty"
@@ -82,6 +83,15 @@ func buildFailing(r *rand.Rand, d *vkit.JNode, yaml bool, used *[]vkit.JPath) (a
 		}
 		*used = append(*used, p)
 		t := d.At(p)
+		switch r.IntN(9) {
+		case 0:
+			// expected types that are interfaces: no decoded JSON/YAML value implements them
+			return match.Type[fmt.Stringer](pathOf(p)), fSpec{"Type", pathOf(p), "wrong-type-interface-expected"}, true
+		case 1:
+			return match.Type[error](pathOf(p)), fSpec{"Type", pathOf(p), "wrong-type-interface-expected"}, true
+		case 2:
+			return match.Type[json.Marshaler](pathOf(p)), fSpec{"Type", pathOf(p), "wrong-type-interface-expected"}, true
+		}
 		if t.Kind == "str" {
 			return match.Type[float64](pathOf(p)), fSpec{"Type", pathOf(p), "wrong-type"}, true
 		}
